@@ -559,9 +559,10 @@ async fn on_commitment_revocation(
             let mut state = plugin.state().lock().unwrap();
             state.add_pending_appointment(tower_id, &appointment);
 
-            if !status.is_unreachable() {
-                send_to_retrier(&state, tower_id, appointment.locator);
-            }
+            // An idle retrier is not sent anything (it loads its data from the database when it wakes up), send_to_retrier takes
+            // care of that. A retrier that has just woken up has already loaded its data and is about to start, and the tower is
+            // still flagged as unreachable at that point, so the data has to be handed to it or it would be left behind.
+            send_to_retrier(&state, tower_id, appointment.locator);
         }
     }
 
